@@ -49,6 +49,11 @@ def library_half(ctx, findings):
     match = build.cc("h_match", ["harness/lib/h_match.c"], daemon=True)
     oom = build.cc("h_oom", ["harness/lib/h_oom.c"], daemon=True)
     cov = ctx.coverage.setdefault("library", {})
+    import time as _t
+    t0 = _t.time(); tm = cov.setdefault("seconds", {})
+    def mark(name):
+        nonlocal t0
+        tm[name] = round(_t.time() - t0, 1); t0 = _t.time()
     # --- header edits
     lines = []
     for i in range(1500 if quick else 30000):
@@ -76,7 +81,7 @@ def library_half(ctx, findings):
     ctx.oblige("correspondence (library/edit under allocation failure): %d messages x header edits, every allocation of every edit failed in turn: "
                "message bytes unchanged by a failed edit, edit = model when let through" % len(lines), "correspondence",
                r["rc"] == 0 and r["n_impl"] == len(lines) and not bad)
-    cov["header_edit_messages"] = len(lines)
+    cov["header_edit_messages"] = len(lines); mark("header_edits")
     # --- construction, copy, marshalling
     lines = []
     for i in range(600 if quick else 12000):
@@ -93,7 +98,7 @@ def library_half(ctx, findings):
                     {"kind": "lib-oom", "suite": "oombuild", "op": lines[r["n_impl"]] if r["n_impl"] < len(lines) else None, "stderr": r["stderr"][-2000:]}, True)
     ctx.oblige("correspondence (library/build under allocation failure): %d construction programs: header settings, copy and marshalling with every "
                "allocation failed in turn = model" % len(lines), "correspondence", ok)
-    cov["construction_programs"] = len(lines)
+    cov["construction_programs"] = len(lines); mark("construction")
     # --- the documented limitation of appends
     env = dict(os.environ); env.update(build.ASAN_ENV)
     out = subprocess.run([wire], input="wire oomappend\n", text=True, capture_output=True, env=env).stdout.strip()
@@ -115,7 +120,7 @@ def library_half(ctx, findings):
                     {"kind": "lib-oom", "suite": "oomleak", "out": out}, True)
     ctx.oblige("failed appends leak nothing: every basic type incl. UNIX_FD, every allocation failed in turn, message released, open descriptors "
                "and outstanding blocks compared (%s)" % out, "correspondence", okl)
-    cov["append_leak_sweep"] = out
+    cov["append_leak_sweep"] = out; mark("append")
     # --- match rules
     lines = []
     for i in range(1500 if quick else 30000):
@@ -131,7 +136,7 @@ def library_half(ctx, findings):
                     {"kind": "lib-oom", "suite": "oomparse", "stderr": r["stderr"][-2000:]}, True)
     ctx.oblige("correspondence (match-rule parser under allocation failure): %d rule texts, every allocation failed in turn: NoMemory, nothing left "
                "allocated, parse = model when let through" % len(lines), "correspondence", ok)
-    cov["match_rules"] = len(lines)
+    cov["match_rules"] = len(lines); mark("match_rules")
     # --- configuration files
     work = os.path.join(bus.RUNROOT, "oomconf-%d" % os.getpid())
     os.makedirs(work, exist_ok=True)
@@ -162,6 +167,7 @@ def library_half(ctx, findings):
     finally:
         import shutil
         shutil.rmtree(work, ignore_errors=True)
+    mark("config_files")
     for path, o, text in problems[:3]:
         ctx.violate("loading a configuration file under allocation failure: " + o[:200], {"kind": "lib-oom", "suite": "oomconf", "result": o, "config": text}, True)
     ctx.oblige("configuration loader under allocation failure: %d generated configuration files, each of their %d allocations failed in turn: "
@@ -177,7 +183,7 @@ def run(ctx):
     os.makedirs(bus.RUNROOT, exist_ok=True)
     library_half(ctx, findings)
     exe = build.cc("h_oom", ["harness/lib/h_oom.c"], daemon=True)
-    n_cases, max_k, pairs = (56, 22, 2) if ctx.quick() else (1400, 400, 12)
+    n_cases, max_k, pairs = (56, 22, 2) if ctx.quick() else (400, 100, 8)      # the thorough tier: about 25 minutes on 16 cores
     jobs = [(exe, ctx.seed * 100003 + i, 12 if i % 3 else 20, max_k, pairs) for i in range(n_cases)]
     with ProcessPoolExecutor(14) as ex:
         results = list(ex.map(oomcheck._job, jobs, chunksize=1))
